@@ -272,6 +272,9 @@ class Interp:
         self.bind_defaults_at_entry = False
         self.assume_schema_columns = False   # "col" in net.<table> is True for schema columns
         self.instantiate_objects = True      # run __init__ and methods of repository classes
+        self.keyreads: List[Tuple[str, str, str, Any]] = []   # (tracked mapping, key, function, node)
+        self.ext_calls: List[Any] = []
+        self.track_external: Set[str] = {"DataFrame"}
         self.memo_calls = False              # coarse memoisation of callee analyses (effect sweeps only)
         self._memo: Dict[Any, Any] = {}
         self._idxnames: Dict[str, Dict[int, str]] = {}
@@ -847,7 +850,7 @@ class Interp:
             return UNKNOWN
         if k == "const":
             return AV(E, "cmeth", (base.data, attr))
-        if k in ("options", "lookups", "is_elements", "dict", "ppc", "matrix", "tableloc"):
+        if k in ("options", "lookups", "is_elements", "dict", "ppc", "matrix", "tableloc", "tmap"):
             return AV(base.deps, "bound", (base, attr))
         # generic value
         if attr == "real":
@@ -977,6 +980,10 @@ class Interp:
                 deps.add(f"ppc.{base.data}.*")
                 shp = sh.TOP
             return AV(frozenset(deps), "val", None, shp, base.via, None)
+        if k == "tmap":
+            key = idx.data if idx.is_const else "*"
+            self.keyreads.append((base.data, key, fr.fn.fq if fr.fn else "", node))
+            return AV(frozenset([f"{base.data}.{key}"]) | idx.deps, "val", None, sh.TOP)
         if k == "options":
             key = idx.data if idx.is_const else "?"
             if key in self.options:
@@ -1026,12 +1033,25 @@ class Interp:
             tag = f"{node.lower.id if node.lower is not None else ''}:{node.upper.id if node.upper is not None else ''}"
         return AV(frozenset(deps), "slice", tag)
 
+    def _display(self, node, fr):
+        items = []
+        for e in node.elts:
+            if isinstance(e, ast.Starred):
+                v = self.eval(e.value, fr)
+                sub = iter_items(v)
+                if sub is not None:
+                    items.extend(sub)
+                else:
+                    items.append(element_of(v))
+            else:
+                items.append(self.eval(e, fr))
+        return items
+
     def e_Tuple(self, node, fr):
-        return AV(E, "tuple", [self.eval(e, fr) for e in node.elts])
+        return AV(E, "tuple", self._display(node, fr))
 
     def e_List(self, node, fr):
-        items = [self.eval(e.value if isinstance(e, ast.Starred) else e, fr) for e in node.elts]
-        return AV(E, "list", items)
+        return AV(E, "list", self._display(node, fr))
 
     def e_Set(self, node, fr):
         items = [self.eval(e, fr) for e in node.elts]
@@ -1205,6 +1225,10 @@ class Interp:
                 return const(isinstance(node.ops[0], ast.In))
             if tb.kind == "net" and (self.schema.is_table(l.data) or l.data in self.schema.structure or l.data in EXTRA_TABLES):
                 return const(isinstance(node.ops[0], ast.In))
+        if len(rs) == 1 and isinstance(node.ops[0], (ast.In, ast.NotIn)) and rs[0].kind == "tmap":
+            key = l.data if l.is_const else "*"
+            self.keyreads.append((rs[0].data, key, fr.fn.fq if fr.fn else "", node))
+            return AV(frozenset([f"{rs[0].data}.{key}"]), "val", None, sh.S(sh.PURE))
         if (len(rs) == 1 and isinstance(node.ops[0], (ast.In, ast.NotIn)) and l.is_const and rs[0].kind == "dict"
                 and isinstance(rs[0].data, dict) and not rs[0].deps):
             try:
@@ -1553,6 +1577,15 @@ class Interp:
             if meth == "update":
                 self._mkstore(f"net._{k}.*", join_all(list(args)) if args else UNKNOWN, UNKNOWN, fr, node, op="update")
             return AV(alld | base.deps, "val")
+        if k == "tmap":
+            if meth in ("get", "pop", "__getitem__") and args:
+                r = self.subscript(base, args[0], fr, node)
+                if len(args) > 1:
+                    r = join(r, args[1])
+                return r
+            if meth in ("items", "keys", "values", "copy", "update"):
+                self.keyreads.append((base.data, "*", fr.fn.fq if fr.fn else "", node))
+            return AV(alld | frozenset([f"{base.data}.*"]), "val")
         if k == "dict":
             if meth == "get" and args and args[0].is_const and isinstance(base.data, dict):
                 if args[0].data in base.data:
@@ -1613,6 +1646,8 @@ class Interp:
         return AV(alld | v.deps, "val", None, sh.TOP, v.via | frozenset([f"m.{meth}"]))
 
     def external_call(self, name: str, args, kwargs, fr, node, alld) -> AV:
+        if self.track_calls and name.rsplit(".", 1)[-1] in self.track_external:
+            self.ext_calls.append((name, list(args), dict(kwargs), fr.fn, node))
         short = name.rsplit(".", 1)[-1]
         root = name.split(".")[0]
         a0 = args[0] if args else None
@@ -2085,6 +2120,16 @@ def _summ_identity_first(interp, fi, args, kwargs, fr, node):
     return args[0] if args else UNKNOWN
 
 
+def _summ_load_std_type(interp, fi, args, kwargs, fr, node):
+    # the dict of a standard type: a tracked mapping whose key reads are recorded
+    el = None
+    if len(args) > 2 and args[2].is_const:
+        el = args[2].data
+    elif "element" in kwargs and kwargs["element"].is_const:
+        el = kwargs["element"].data
+    return AV(E, "tmap", f"std:{el}" if el else "std")
+
+
 def _summ_get_values(interp, fi, args, kwargs, fr, node):
     # get_values(source, selection, lookup): source[lookup[selection]]
     src = args[0] if args else kwargs.get("source", UNKNOWN)
@@ -2098,4 +2143,5 @@ DEFAULT_SUMMARIES: Dict[str, Callable] = {
     "_sum_by_group": _summ_sum_by_group,
     "_sum_by_group_nvals": _summ_sum_by_group,
     "get_values": _summ_get_values,
+    "load_std_type": _summ_load_std_type,
 }
